@@ -527,3 +527,151 @@ Proof. intros. unfold factorial_polls_of. apply factorial_polls_ge. lia. Qed.
 
 Lemma polls_skeleton_mul : forall la lb, polls (mul_trace la lb) = lb.
 Proof. intros. unfold mul_trace. rewrite polls_repeat. cbn [polls]. rewrite N2Nat.id. lia. Qed.
+
+(* level-1 counts agree with the skeletons *)
+Lemma polls_divmod_trace : forall la lb, polls (divmod_trace la lb) = la.
+Proof.
+  intros. unfold divmod_trace. rewrite polls_repeat.
+  assert (polls (Poll :: repeat_trace 64 (divmod_round lb)) = 1) as E.
+  { cbn [polls]. rewrite polls_repeat. cbn [polls divmod_round]. lia. }
+  rewrite E, N2Nat.id. lia.
+Qed.
+
+Lemma polls_lshift1_trace : forall l, polls (lshift1_trace l) = l.
+Proof. intros. unfold lshift1_trace. rewrite polls_repeat. cbn [polls]. rewrite N2Nat.id. lia. Qed.
+
+Lemma l1_mul_skeleton : forall a b,
+  limbs_zero a = false -> limbs_zero b = false ->
+  l1_mul_polls false a false b = polls (mul_trace (nlen a) (nlen b)).
+Proof.
+  intros a b Ha Hb. unfold l1_mul_polls. cbn [andb]. rewrite Ha, Hb. cbn [orb].
+  rewrite polls_skeleton_mul. reflexivity.
+Qed.
+
+Lemma l1_lshift_skeleton : forall a,
+  l1_lshift_polls false a = polls (lshift1_trace (nlen a + (if N.testbit (last a 0) 63 then 1 else 0))).
+Proof. intros. unfold l1_lshift_polls. rewrite polls_lshift1_trace. reflexivity. Qed.
+
+Lemma l1_divmod_skeleton : forall a b n,
+  l1_divmod_polls false a true b = Some n ->
+  3 <= limbs_val b -> limbs_val b < limbs_val a ->
+  n = polls (divmod_trace (nlen a) 1).
+Proof.
+  intros a b n H H3 Hlt. unfold l1_divmod_polls in H. cbn [andb] in H.
+  assert (limbs_val b =? 0 = false) as E0 by (apply N.eqb_neq; lia).
+  assert (limbs_val b =? 1 = false) as E1 by (apply N.eqb_neq; lia).
+  assert (limbs_val a =? 0 = false) as E2 by (apply N.eqb_neq; lia).
+  assert (limbs_val a <? limbs_val b = false) as E3 by (apply N.ltb_ge; lia).
+  assert (limbs_val a =? limbs_val b = false) as E4 by (apply N.eqb_neq; lia).
+  assert (limbs_val b =? 2 = false) as E5 by (apply N.eqb_neq; lia).
+  rewrite E0, E1, E2, E3, E4, E5 in H. cbn [orb] in H.
+  destruct (limbs_val b <? 4611686018427387904); inversion H.
+  rewrite polls_divmod_trace. reflexivity.
+Qed.
+
+(* ------------------------------------------------------------------ *)
+(* digit expansion: every digit step starts with a poll and does work linear
+   in the length of the denominator; however many digits there are, the gap
+   stays below digit_gap_bound *)
+
+Lemma repeat_shape2 : forall inv bound body,
+  (forall cur, cur <= inv -> mid_ok bound body cur /\ endcur body cur <= inv) ->
+  forall m cur, cur <= inv ->
+  mid_ok bound (repeat_trace m body) cur /\ endcur (repeat_trace m body) cur <= inv.
+Proof.
+  intros inv bound body H. induction m as [|m IH]; intros cur Hc; cbn [repeat_trace].
+  - cbn. auto.
+  - destruct (H cur Hc) as [M E]. destruct (IH _ E) as [M2 E2].
+    split; [apply mid_ok_app; assumption | rewrite endcur_app; exact E2].
+Qed.
+
+Lemma divmod_trace_shape : forall bound la lb cur,
+  cur <= bound -> 64 * (2 * lb + 4) <= bound ->
+  mid_ok bound (divmod_trace la lb) cur /\ endcur (divmod_trace la lb) cur <= N.max cur (64 * (2 * lb + 4)).
+Proof.
+  intros bound la lb cur Hc Hb. unfold divmod_trace.
+  assert (pollfree (repeat_trace 64 (divmod_round lb))) as PF by (apply pollfree_repeat; cbn; auto).
+  apply (polled_loop bound (64 * (2 * lb + 4)) (N.to_nat la) (repeat_trace 64 (divmod_round lb)) cur Hc Hb).
+  - apply pollfree_mid. exact PF.
+  - rewrite pollfree_end by exact PF. rewrite work_repeat. cbn [work divmod_round]. lia.
+Qed.
+
+Definition digit_end (ld : N) : N := 64 * (2 * ld + 4) + ld + 1.
+
+Lemma digit_step_shape : forall ld cur, cur <= digit_gap_bound ld ->
+  mid_ok (digit_gap_bound ld) (digit_step ld) cur /\ endcur (digit_step ld) cur <= digit_end ld.
+Proof.
+  intros ld cur Hc. unfold digit_step, digit_gap_bound, digit_end in *.
+  set (bound := 64 * (2 * ld + 4) + 3 * ld + 8) in *.
+  set (D := 64 * (2 * ld + 4)).
+  assert (D + 3 * ld + 8 = bound) as HB by reflexivity.
+  cbn [mid_ok endcur app].
+  destruct (mul_trace_shape bound ld 1 (0 + (ld + 1))) as [M1 E1]; try lia.
+  destruct (divmod_trace_shape bound (ld + 1) ld (endcur (mul_trace ld 1) (0 + (ld + 1)))) as [M2 E2]; try (fold D; lia).
+  fold D in E2.
+  set (c2 := endcur (divmod_trace (ld + 1) ld) (endcur (mul_trace ld 1) (0 + (ld + 1)))) in *.
+  assert (c2 <= D) as C2 by lia.
+  destruct (mul_trace_shape bound 1 ld c2) as [M3 E3]; try lia.
+  split.
+  - split; [exact Hc|].
+    apply mid_ok_app; [exact M1|]. apply mid_ok_app; [exact M2|]. apply mid_ok_app; [exact M3|]. cbn. exact I.
+  - rewrite !endcur_app. cbn [endcur]. fold c2. lia.
+Qed.
+
+Lemma digit_end_le : forall ld, digit_end ld + ld + 2 <= digit_gap_bound ld.
+Proof. intro. unfold digit_end, digit_gap_bound. lia. Qed.
+
+Lemma gap_bound_digits_lemma : forall ld n, gap (digits_trace ld n) <= digit_gap_bound ld.
+Proof.
+  intros ld n. unfold digits_trace, gap. pose proof (digit_end_le ld) as HE.
+  destruct (repeat_shape2 (digit_end ld + 2) (digit_gap_bound ld) (digit_step ld ++ [Work 2])) with (m := n) (cur := 0) as [M E].
+  - intros cur Hc. destruct (digit_step_shape ld cur) as [M E]; [lia|].
+    split; [apply mid_ok_app; [exact M | cbn; exact I] | rewrite endcur_app; cbn [endcur]; lia].
+  - lia.
+  - apply gap_aux_le; [exact M | lia | lia].
+Qed.
+
+Lemma gap_bound_brent_lemma : forall ld n1 lam mu, gap (brent_trace ld n1 lam mu) <= digit_gap_bound ld.
+Proof.
+  intros ld n1 lam mu. unfold brent_trace, gap. pose proof (digit_end_le ld) as HE.
+  set (inv := digit_end ld + 1). set (bound := digit_gap_bound ld).
+  assert (forall cur, cur <= inv -> mid_ok bound (Work ld :: digit_step ld) cur /\ endcur (Work ld :: digit_step ld) cur <= inv) as B1.
+  { intros cur Hc. cbn [mid_ok endcur]. destruct (digit_step_shape ld (cur + ld)) as [M E]; [unfold inv in *; fold bound; lia|].
+    split; [exact M | unfold inv; lia]. }
+  assert (forall cur, cur <= inv -> mid_ok bound (digit_step ld ++ [Work 1]) cur /\ endcur (digit_step ld ++ [Work 1]) cur <= inv) as B2.
+  { intros cur Hc. destruct (digit_step_shape ld cur) as [M E]; [unfold inv in *; fold bound; lia|].
+    split; [apply mid_ok_app; [exact M | cbn; exact I] | rewrite endcur_app; cbn [endcur]; unfold inv; lia]. }
+  assert (forall cur, cur <= inv -> mid_ok bound (Work ld :: digit_step ld ++ digit_step ld ++ [Work 1]) cur
+                                   /\ endcur (Work ld :: digit_step ld ++ digit_step ld ++ [Work 1]) cur <= inv) as B3.
+  { intros cur Hc. cbn [mid_ok endcur].
+    destruct (digit_step_shape ld (cur + ld)) as [M E]; [unfold inv in *; fold bound; lia|].
+    destruct (B2 (endcur (digit_step ld) (cur + ld))) as [M' E']; [unfold inv; lia|].
+    split; [apply mid_ok_app; assumption | rewrite endcur_app; exact E']. }
+  destruct (repeat_shape2 inv bound _ B1 n1 0) as [M1 E1]; [unfold inv; lia|].
+  destruct (repeat_shape2 inv bound _ B2 lam _ E1) as [M2 E2].
+  destruct (repeat_shape2 inv bound _ B3 mu _ E2) as [M3 E3].
+  apply gap_aux_le.
+  - apply mid_ok_app; [exact M1|]. apply mid_ok_app; [exact M2 | exact M3].
+  - rewrite !endcur_app. unfold inv, bound in *. lia.
+  - lia.
+Qed.
+
+Lemma polls_digit_step_ge : forall ld, 1 <= polls (digit_step ld).
+Proof. intro. unfold digit_step. cbn [polls]. lia. Qed.
+
+Lemma polls_digits_lemma : forall ld n, digits_polls_of (N.of_nat n) <= polls (digits_trace ld n).
+Proof.
+  intros. unfold digits_trace, digits_polls_of. rewrite polls_repeat, polls_app.
+  pose proof (polls_digit_step_ge ld). nia.
+Qed.
+
+Lemma polls_brent_lemma : forall ld n1 lam mu,
+  N.of_nat n1 + N.of_nat lam + 2 * N.of_nat mu <= polls (brent_trace ld n1 lam mu).
+Proof.
+  intros. unfold brent_trace. rewrite !polls_app, !polls_repeat.
+  pose proof (polls_digit_step_ge ld) as H.
+  change (polls (Work ld :: digit_step ld)) with (polls (digit_step ld)).
+  change (polls (Work ld :: digit_step ld ++ digit_step ld ++ [Work 1])) with (polls (digit_step ld ++ digit_step ld ++ [Work 1])).
+  rewrite !polls_app. cbn [polls]. nia.
+Qed.
+
